@@ -132,7 +132,12 @@ func c15Run(s *c15Scn, cut string) verdict {
 				return
 			}
 
-			_, _ = c0.Write([]byte{255, 253})
+			if s.idx%2 == 0 {
+				// the server of the first attempt had something to say before it went away: that was another connection
+				_, _ = c0.Write(append([]byte("too many sessions, try later\r\n"), 255, 253))
+			} else {
+				_, _ = c0.Write([]byte{255, 253})
+			}
 			time.Sleep(5 * time.Millisecond)
 			_ = c0.Close()
 		}
@@ -278,6 +283,10 @@ func c15Run(s *c15Scn, cut string) verdict {
 		kind := "data-lost"
 		if len(plain) > len(wantData) {
 			kind = "negotiation-bytes-delivered"
+		}
+
+		if retry && bytes.Contains(plain, []byte("too many sessions")) {
+			kind = "bytes-of-an-earlier-connection-delivered"
 		}
 
 		fail(&v, "C15:"+kind, "opening % x (%s): reads returned % x, plain data is % x", opening, cut, got, wantData)
